@@ -175,6 +175,18 @@ def ivar(i):
     return E.IntVar(2 * (i % (NVARS // 2)) + 1, -3, 6)
 
 
+def lbvar(k):
+    """boolean variables for long item lists: as many distinct ones as wanted (ids beyond NVARS read as False / 0 in the
+    random environments; the targeted environments of `search` cover them)"""
+    _, _, E = C()
+    return E.BoolVar(2 * k)
+
+
+def livar(k):
+    _, _, E = C()
+    return E.IntVar(2 * k + 1, -3, 6)
+
+
 def scalar_pool():
     b0, b1, b2 = bvar(0), bvar(1), bvar(2)
     i0, i1 = ivar(0), ivar(1)
@@ -608,7 +620,16 @@ def gen_hard_cases(ctx):
             for _ in range(6):
                 lits = [True, False] if which != "AD" else [0, 1, big(300), big(300), big(-9)]
                 cases.append(("h", which, tuple(nest(2, lits, top=True) for _ in range(rng.choice([1, 2]))), sty))
-        # (5) long argument lists, (2) more than 256 literal items
+        # (5) long argument lists of distinct variables (every position matters), (2) more than 256 literal items
+        for (n, st) in ((17, 1), (25, 0), (30, 2), (33, 3), (64, 1), (100, 5), (257, 1)):
+            vs = [livar(k) for k in range(min(n, 64))] if which == "AD" else [lbvar(k) for k in range(n)]
+            cases.append(("h", which, (vs,), St("it%d" % st)))
+            cases.append(("h", which, (vs[:5], [vs[5:n // 2], [vs[n // 2:]]]), St("it%d" % st)))
+            cases.append(("h", which, tuple(vs), St("it%d" % st)))
+            if which != "AD":
+                cases.append(("call", {"CT": "count_true", "FO": "fold_or", "FA": "fold_and"}[which], A.BoolArray1D(vs), ()))
+            else:
+                cases.append(("call", "alldifferent", A.IntArray1D(vs), ()))
         long_items = [good[i % 7] for i in range(30)]
         for st in (0, 1, 2, 3):
             cases.append(("h", which, (long_items,), St("it%d" % st)))
@@ -1465,12 +1486,15 @@ def correspond(ctx):
 # ------------------------------------------------------------------ search (the property itself)
 
 class Env:
-    def __init__(self, rng):
-        self.b = [rng.random() < 0.5 for _ in range(NVARS)]
-        self.i = [rng.randint(-3, 6) for _ in range(NVARS)]
+    def __init__(self, rng=None, b=None, i=None):
+        self.b = list(b) if b is not None else [rng.random() < 0.5 for _ in range(NVARS)]
+        self.i = list(i) if i is not None else [rng.randint(-3, 6) for _ in range(NVARS)]
 
     def wire(self):
-        return "[ %s ] [ %s ]" % (" ".join("1" if x else "0" for x in self.b), " ".join(str(x) for x in self.i))
+        w = getattr(self, "_wire", None)
+        if w is None:
+            w = self._wire = "[ %s ] [ %s ]" % (" ".join("1" if x else "0" for x in self.b), " ".join(str(x) for x in self.i))
+        return w
 
 
 class IllTyped(Exception):
@@ -1485,9 +1509,9 @@ def pyeval(e, env):
     if isinstance(e, int):
         return e
     if isinstance(e, E.BoolVar):
-        return bool(env.b[e.id])
+        return bool(env.b[e.id]) if e.id < len(env.b) else False
     if isinstance(e, E.IntVar):
-        return int(env.i[e.id])
+        return int(env.i[e.id]) if e.id < len(env.i) else 0
     if not isinstance(e, E.Expr):
         raise IllTyped(repr(e))
     op = e.op.name
@@ -1655,10 +1679,10 @@ def expectation(case):
                 return None
             items = list(self.data) if is_array(self) else [self]
             g = {"fold_or": lambda vs: any(vs), "fold_and": lambda vs: all(vs), "count_true": lambda vs: sum(1 for x in vs if x)}[m]
-            return ("scalar", "int" if m == "count_true" else "bool", lambda env: g([pyeval(x, env) for x in items]))
+            return ("scalar", "int" if m == "count_true" else "bool", lambda env: g([pyeval(x, env) for x in items]), items)
         if m == "alldifferent":
             items = list(self.data)
-            return ("scalar", "bool", lambda env: len(set(pyeval(x, env) for x in items)) == len(items))
+            return ("scalar", "bool", lambda env: len(set(pyeval(x, env) for x in items)) == len(items), items)
         return None
     if f == "h":
         items = []
@@ -1677,7 +1701,7 @@ def expectation(case):
             return None                          # the property speaks about items of the right kind only
         g = {"FO": lambda vs: any(vs), "FA": lambda vs: all(vs), "CT": lambda vs: sum(1 for x in vs if x),
              "AD": lambda vs: len(set(vs)) == len(vs)}[case[1]]
-        return ("scalar", "int" if case[1] == "CT" else "bool", lambda env: g([pyeval(x, env) for x in items]))
+        return ("scalar", "int" if case[1] == "CT" else "bool", lambda env: g([pyeval(x, env) for x in items]), items)
     if f == "conv":
         _, a, kh, kw, o = case
         if o not in ("and", "or"):
@@ -1691,7 +1715,7 @@ def expectation(case):
             y, x = divmod(i, rw)
             vs = [pyeval(a.data[(y + dy) * w + (x + dx)], env) for dy in range(kh) for dx in range(kw)]
             return all(vs) if o == "and" else any(vs)
-        return ("array", "bool", (rh, rw), fn)
+        return ("array", "bool", (rh, rw), fn, list(a.data) if kh * kw >= 8 else None)
     if f in ("fni", "fn"):
         a, form = case[1], case[2]
         if form[0] in ("1", "X"):
@@ -1723,14 +1747,53 @@ def search(ctx):
     nenv = 4 if (ctx.thorough or getattr(ctx, "deep", False)) else 2
     envs = [Env(rng) for _ in range(nenv)]
     pending = []   # (key, what, detail, env index, tree, expected wire)
+    env_index = {}
 
-    def viol(case, what, detail, tag=""):
-        d = {"case": case_id(case), "request": model_request(case)}
-        if tag:
-            d["history"] = tag
-            what = what + " — on the " + tag.split(": ", 1)[1].split(",")[0]
-        d.update(detail)
-        ctx.violation(split(case)[0][0] + ":" + case_id(case) + ("@" + tag.split(":")[0] if tag else ""), what, d)
+    def env_of(key, b, i):
+        if key not in env_index:
+            envs.append(Env(b=b, i=i))
+            env_index[key] = len(envs) - 1
+        return env_index[key]
+
+    def var_ids(items):
+        bs, is_, seen = set(), set(), set()
+
+        def walk(e):
+            if isinstance(e, E.BoolVar):
+                bs.add(e.id)
+            elif isinstance(e, E.IntVar):
+                is_.add(e.id)
+            elif isinstance(e, E.Expr) and id(e) not in seen:
+                seen.add(id(e))
+                for x in e.operands:
+                    walk(x)
+        for x in items:
+            walk(x)
+        return sorted(bs), sorted(is_)
+
+    def spread(l, n):
+        """at most 3n elements of l: the first n, the last n, n evenly spaced ones"""
+        if len(l) <= 3 * n:
+            return list(l)
+        mid = [l[(len(l) * (2 * j + 1)) // (2 * n)] for j in range(n)]
+        return sorted(set(l[:n] + mid + l[-n:]))
+
+    def targeted(items):
+        """environments aimed at aggregates (random assignments almost never make exactly one of many items true /
+        false / equal): all false, all true, and for long item lists one variable true / one false / one pair equal."""
+        bv, iv = var_ids(items)
+        n = max([NVARS] + [v + 1 for v in bv + iv])
+        distinct = [7 * k for k in range(n)]
+        out = [env_of(("all-false", n), [False] * n, [0] * n), env_of(("all-true", n), [True] * n, distinct)]
+        if len(items) < 12:
+            return out
+        for v in spread(bv, 8):
+            out.append(env_of(("only-true", v, n), [k == v for k in range(n)], distinct))
+            out.append(env_of(("only-false", v, n), [k != v for k in range(n)], distinct))
+        pairs = list(zip(iv, iv[1:])) + ([(iv[0], iv[-1])] if len(iv) > 2 else [])
+        for (a, b) in spread(pairs, 8):
+            out.append(env_of(("equal", a, b, n), [k % 4 == 0 for k in range(n)], [distinct[a] if k == b else distinct[k] for k in range(n)]))
+        return out
 
     for (case, tag, before, after) in changes:
         ctx.prop_case("prop-operands-unchanged", (before, tag))
@@ -1770,7 +1833,8 @@ def search(ctx):
                 viol(case, "four_neighbors is not the in-bounds orthogonal neighbour cells", {"observed": io}, tag)
             continue
         if exp[0] == "array":
-            _, kind, shp, fn = exp
+            _, kind, shp, fn = exp[:4]
+            eis = list(range(nenv)) + (targeted(exp[4]) if len(exp) > 4 and exp[4] is not None else [])
             want_cls = {("bool", 1): A.BoolArray1D, ("int", 1): A.IntArray1D, ("bool", 2): A.BoolArray2D, ("int", 2): A.IntArray2D}[(kind, len(shp))]
             if type(raw) is not want_cls or tuple(raw.shape) != tuple(shp):
                 viol(case, "result is not an array of the operands' shape and the operator's kind", {"observed": io, "expected_shape": list(shp)}, tag)
@@ -1782,16 +1846,16 @@ def search(ctx):
                 viol(case, "result data length differs from the shape", {"observed": io}, tag)
                 continue
             for i in range(size):
-                for ei, env in enumerate(envs):
-                    pending.append(((case, tag), i, ei, raw.data[i], val_wire(fn(i, env))))
+                for ei in eis:
+                    pending.append(((case, tag), i, ei, raw.data[i], val_wire(fn(i, envs[ei]))))
         else:
-            _, kind, fn = exp
+            _, kind, fn = exp[:3]
             okcls = E.BoolExpr if kind == "bool" else E.IntExpr
             if not isinstance(raw, okcls) and not (type(raw) is bool and kind == "bool"):
                 viol(case, "result is not an expression of the operator's kind", {"observed": io}, tag)
                 continue
-            for ei, env in enumerate(envs):
-                pending.append(((case, tag), -1, ei, raw, val_wire(fn(env))))
+            for ei in list(range(nenv)) + (targeted(exp[3]) if len(exp) > 3 else []):
+                pending.append(((case, tag), -1, ei, raw, val_wire(fn(envs[ei]))))
     # evaluate all result trees: extracted eval and the independent evaluator
     got = None
     if model is not None:
